@@ -11,6 +11,21 @@ CHECKS = {
             "Seeded search over sequential operation histories (append anywhere/with gaps/repeats, Sync, DeleteRange valid+invalid, Stop/Start) x batch/cache sizes x datastore flavours on the real store.Store over a simulated disk; after every step the public API is compared with an executable reference model. Sampling, not proof; every failure is a minimised replayable tape.",
             "Trusts: SimDisk semantics (atomic batch commit, read-through transactions), the reference model StoreModel, simhdr header type. 2Q caches of size 1 are rejected by NewStore and therefore not explored.",
             "DESIGN.md §6 C04"),
+    "C06": ("fault_enumeration",
+            "deterministic simulation with fault injection: crash-point enumeration over the recorded datastore write log of seeded histories + seeded placement of failing writes + clean restarts",
+            "For each seeded append/delete/sync/restart history on the real Store over SimDisk: (a) every clean Stop/Start (also straight after Append) is compared with the reference model; (b) write-log prefixes (every prefix in the thorough tier; the boundaries around pointer writes/deletes plus a random sample in the quick tier) are rebuilt into disk images, a fresh Store is opened on each and must start, have resolvable Head/Tail with every height between them retrievable, keep every surviving committed header, and advance Head when the chain's continuation is appended; (c) N in {1,2,3,5} consecutive failing writes are placed inside the history and virtual time lets the flush back-off loop finish.",
+            "Crash model: only the datastore's commit log survives; a batch commit is atomic; no torn or reordered writes. Histories are sampled, crash points inside a sampled history are enumerated (thorough) or sampled (quick).",
+            "DESIGN.md §6 C06"),
+    "C08": ("exploration",
+            "deterministic simulation: seeded store layouts x DeleteRange argument grid x continuations vs reference model; part-way failures produced by virtual-time deadlines inside the deletion",
+            "Seeded stores (chunked appends, islands above gaps, flushed/unflushed mixes, both datastore flavours) x DeleteRange(from,to) from the boundary grid and from generated acceptable ranges; rejected ranges must leave API and raw datastore untouched; accepted ones must remove exactly the range (API + raw keys), permanently across later appends, flushes, restarts; part-way failures (caller deadline placed by the tape inside the deletion, 1ms per datastore op of virtual time) must leave the rest untouched, ends resolvable, and a tail-side retry must complete.",
+            "Trusts SimDisk and the reference model; datastore write errors during DeleteRange belong to C06's quantifier, not C08's, and are injected there.",
+            "DESIGN.md §6 C08"),
+    "C14": ("exploration",
+            "deterministic simulation with fault injection: scripted OnDelete handlers (error / panic / slow at every position) over seeded stores and ranges, handler-call log vs datastore write log",
+            "1-3 handlers with tape-chosen scripts (ok, error at k-th call, panic at k-th call, slow in virtual time) on seeded stores and deletable ranges; oracle from the recorded handler calls, the datastore write log (ordering of handler calls vs the first datastore delete of that height) and API probes: every removed header had every handler called exactly once while still readable by height and hash, all nil; a failing/panicking handler keeps its header, yields an error (never a crash), leaves headers above it untouched on the tail side and is called again on retry; handlers are never called outside the range.",
+            "Trusts SimDisk's write log ordering and the reference model.",
+            "DESIGN.md §6 C14"),
 }
 
 PENDING = {}  # id -> reason (not claimed yet)
